@@ -420,18 +420,18 @@ func c10Eval(w *Worker, c *c10Case) {
 		}
 		name := vw.SpecName(id)
 		if !sy.IsNonTerminator {
-			if other, dup := byCode[sy.Value]; dup && declared[sy.Value] < 2 {
-				bad("token-number", fmt.Sprintf("tokens %s and %s both have code %d", other, name, sy.Value))
+			if other, dup := byCode[int(sy.Value)]; dup && declared[int(sy.Value)] < 2 {
+				bad("token-number", fmt.Sprintf("tokens %s and %s both have code %d", other, name, int(sy.Value)))
 				return
 			}
-			byCode[sy.Value] = name
+			byCode[int(sy.Value)] = name
 		}
-		if gram.IsLit(name) && sy.Value != int(gram.LitChar(name)) {
-			bad("token-number", fmt.Sprintf("literal %s has code %d", name, sy.Value))
+		if gram.IsLit(name) && int(sy.Value) != int(gram.LitRune(name)) {
+			bad("token-number", fmt.Sprintf("literal %s has code %d", name, int(sy.Value)))
 			return
 		}
-		if n, ok := wantNum[name]; ok && sy.Value != n {
-			bad("token-number", fmt.Sprintf("token %s has code %d, declared %d", name, sy.Value, n))
+		if n, ok := wantNum[name]; ok && int(sy.Value) != n {
+			bad("token-number", fmt.Sprintf("token %s has code %d, declared %d", name, int(sy.Value), n))
 			return
 		}
 		if sy.Tag != wantTag[name] {
